@@ -1,7 +1,7 @@
 (* C04: reassembly succeeds exactly on well-formed chunk sets, does not depend on the arrival order nor on which
    admissible sort is used, and never panics on chunks produced by the chunk decoder. *)
 From Coq Require Import Sorting.Permutation Sorting.Sorted.
-From AG Require Import Base.Prelude Base.Res Base.Bytes Codec.Chunk Codec.Reasm.
+From AG Require Import Base.Prelude Base.Res Base.Bytes Codec.Chunk Codec.Chunk_proofs Codec.Reasm.
 
 Definition idle (a b : chunk) : Prop := c_id a <= c_id b.
 
@@ -513,3 +513,85 @@ Proof.
 Qed.
 Lemma isort_sorted l : Sorted idle (isort_by_id l).
 Proof. induction l as [|c l IH]; [constructor|]. cbn [isort_by_id fold_right]. apply insert_sorted. exact IH. Qed.
+
+Lemma isort_admissible : admissible_sort isort_by_id.
+Proof. split; [exact isort_perm|exact isort_sorted]. Qed.
+
+(* ---------- statements in terms of admissible_sort ---------- *)
+Section Pinned.
+Variable devices : list N.
+Variable m : ovf.
+Variable P : Type.
+Variable pwb_decode : list N -> res P.
+
+Theorem reasm_ok_iff sortF cs p : admissible_sort sortF -> Forall (chunk_ok devices) cs ->
+  (reasm devices m sortF P pwb_decode cs = Ok p <-> wf_set cs /\ pwb_decode (concat_by_id cs) = Ok p).
+Proof. intros [A B] Ho. apply reasm_ok_iff_lemma; assumption. Qed.
+
+Theorem reasm_perm sortF sortF' cs cs' : admissible_sort sortF -> admissible_sort sortF' ->
+  Forall (chunk_ok devices) cs -> Permutation cs cs' ->
+  reasm devices m sortF P pwb_decode cs = reasm devices m sortF' P pwb_decode cs'.
+Proof.
+  intros [A B] [A' B'] Ho Pm. unfold reasm.
+  rewrite (reasm_struct_perm devices m sortF sortF' A B A' B' cs cs' Ho Pm). reflexivity.
+Qed.
+
+Theorem reasm_total sortF cs : admissible_sort sortF -> Forall (chunk_ok devices) cs ->
+  (forall l, bytes l -> pwb_decode l <> Panic) -> reasm devices m sortF P pwb_decode cs <> Panic.
+Proof. intros [A B] Ho. apply reasm_total_lemma; assumption. Qed.
+
+Theorem reasm_not_wf sortF cs : admissible_sort sortF -> Forall (chunk_ok devices) cs -> ~ wf_set cs ->
+  exists k, reasm devices m sortF P pwb_decode cs = Err k.
+Proof. intros [A B] Ho. apply reasm_not_wf_err; assumption. Qed.
+
+(* chunks produced by the chunk decoder satisfy chunk_ok *)
+Lemma decoded_chunk_ok m' l c : bytes l -> chunk_decode devices m' l = Ok c -> chunk_ok devices c.
+Proof. intros Hb H. apply chunk_exact_lemma in H; [apply H|exact Hb]. Qed.
+Lemma decoded_chunks_ok m' ls cs : Forall bytes ls -> Forall2 (fun l c => chunk_decode devices m' l = Ok c) ls cs ->
+  Forall (chunk_ok devices) cs.
+Proof.
+  intros Hb H. induction H as [|l c ls cs H1 H IH]; [constructor|].
+  inversion Hb. subst. constructor; [eapply decoded_chunk_ok; eauto|auto].
+Qed.
+
+(* ---------- every single fault of the property text makes the set ill-formed ---------- *)
+Section Faults.
+Variable sortF : list chunk -> list chunk.
+Hypothesis adm : admissible_sort sortF.
+Variable cs : list chunk.
+Hypothesis Ho : Forall (chunk_ok devices) cs.
+Let refuse := exists k, reasm devices m sortF P pwb_decode cs = Err k.
+
+Lemma missing_id_err : (exists i, i < lenN cs /\ ~ In i (map c_id cs)) -> refuse.
+Proof.
+  intros (i & Hi & Hn). apply reasm_not_wf; auto. intros (_ & _ & _ & Pid & _). apply Hn.
+  apply (Permutation_in i (Permutation_sym Pid)). apply nseq_from_In. unfold lenN in Hi. lia.
+Qed.
+Lemma dup_id_err : ~ NoDup (map c_id cs) -> refuse.
+Proof.
+  intros Hn. apply reasm_not_wf; auto. intros (_ & _ & _ & Pid & _). apply Hn.
+  apply (Permutation_NoDup (Permutation_sym Pid)). apply nseq_from_NoDup.
+Qed.
+Lemma mixed_board_err : (exists c c', In c cs /\ In c' cs /\ c_dev c <> c_dev c') -> refuse.
+Proof. intros (c & c' & Hc & Hc' & Hn). apply reasm_not_wf; auto. intros (_ & U & _). apply Hn, U; assumption. Qed.
+Lemma mixed_chip_err : (exists c c', In c cs /\ In c' cs /\ c_chan c <> c_chan c') -> refuse.
+Proof. intros (c & c' & Hc & Hc' & Hn). apply reasm_not_wf; auto. intros (_ & _ & U & _). apply Hn, U; assumption. Qed.
+Lemma eom_absent_err : (exists c, In c cs /\ c_id c = lenN cs - 1 /\ c_eom c = false) -> refuse.
+Proof.
+  intros (c & Hc & Hid & He). apply reasm_not_wf; auto. intros (_ & _ & _ & _ & E & _).
+  apply (E c Hc) in Hid. rewrite Hid in He. discriminate.
+Qed.
+Lemma eom_early_err : (exists c, In c cs /\ c_id c <> lenN cs - 1 /\ c_eom c = true) -> refuse.
+Proof.
+  intros (c & Hc & Hid & He). apply reasm_not_wf; auto. intros (_ & _ & _ & _ & E & _).
+  apply Hid. apply (E c Hc). exact He.
+Qed.
+Lemma nonfinal_size_err :
+  (exists c c0, In c cs /\ In c0 cs /\ c_id c0 = 0 /\ c_id c < lenN cs - 1 /\
+                lenN (c_payload c) <> lenN (c_payload c0)) -> refuse.
+Proof.
+  intros (c & c0 & Hc & Hc0 & Z & Hlt & Hn). apply reasm_not_wf; auto. intros (_ & _ & _ & _ & _ & S).
+  apply Hn. apply S; assumption.
+Qed.
+End Faults.
+End Pinned.
